@@ -157,7 +157,7 @@ def finish(prop, tier, seed, reg, keys, presults, py_results, known, wall):
         print(f"CHECKER-ERROR property={prop} zero obligations generated")
         return 3
     for kf in known:
-        hit = [n for k, n in known_lines if k == kf["id"]] or [p["name"] for p in py_known if p.get("known_finding") == kf["id"]]
+        hit = [n for k, n in known_lines if k == kf["id"]] or [p["name"] for p in py_known if kf["id"] in str(p.get("known_finding")).split(",")]
         if hit:
             print(f"KNOWN-FINDING: property={prop} {kf['what']} (obligation {hit[0]})")
     for o in violations:
